@@ -297,3 +297,19 @@ def fx_emptyrange(fx):
     c = _ctx()
     shrink.empty_range(c, fx, ["src/lib.rs"])
     return _fires(c, "V::bad_shrink") and not _fires(c, "V::ok_shrink")
+
+
+def fx_tagkind(fx):
+    from rules import tagkind
+    c1, c2 = _ctx(), _ctx()
+    n1 = tagkind.run(c1, fx, "src/lib.rs", only=lambda f: f.startswith("tagk::"))
+    n2 = tagkind.run(c2, fx, "src/lib.rs", only=lambda f: f.startswith("tagk_bad::") or f == "tagk::squeeze")
+    return n1 == 2 and not c1.violations and n2 == 1 and len(c2.violations) == 1
+
+
+def fx_fallback(fx):
+    from rules import sibling
+    c1, c2 = _ctx(), _ctx()
+    n1 = sibling.run(c1, fx, ["src/lib.rs"], only=lambda f: f.startswith("fallback::"))
+    n2 = sibling.run(c2, fx, ["src/lib.rs"], only=lambda f: f.startswith("fallback_bad::"))
+    return n1 == 1 and not c1.violations and n2 == 1 and len(c2.violations) == 1
